@@ -110,14 +110,53 @@ def okl_job(comm, cfg):
     return {"hash": hashlib.sha256(b"\0".join(out)).hexdigest(), "n": int(sl.n_samples)}
 
 
-JOBS = {"kl": kl_job, "okl": okl_job}
+def hist_job(comm, cfg):
+    """Save / overwrite / load history with DECREASING sample counts under one name: the list of a
+    later, shorter save must be exactly what every task count loads back (no stale samples of the
+    earlier, longer list), for the residual list of the KL and for a plain list of its samples."""
+    import warnings
+    import nifty.cl as ift
+    warnings.simplefilter("ignore")
+    ift.logger.setLevel("ERROR")
+    lh, pos = _model(cfg)
+    ic = ift.AbsDeltaEnergyController(1e-10, iteration_limit=30)
+    H = ift.StandardHamiltonian(lh, ic, prior_sampling_dtype=np.float64)
+    base_r = os.path.join(cfg["dir"], "resid")
+    base_p = os.path.join(cfg["dir"], "plain")
+    out, ns = [], []
+    for step, n in enumerate(cfg["counts"]):
+        with ift.random.Context(cfg["seed"] + step):
+            kl = ift.SampledKLEnergy(pos, H, n, None, mirror_samples=cfg["mirror"], comm=comm)
+        sl = kl.samples
+        sl.save(base_r, overwrite=True)
+        pl = ift.SampleList(list(sl.local_iterator()), comm=comm, domain=sl.domain)
+        pl.save(base_p, overwrite=True)
+        back_r = ift.ResidualSampleList.load(base_r, comm=comm)
+        back_p = ift.SampleList.load(base_p, comm=comm)
+        ns.append([int(sl.n_samples), int(back_r.n_samples), int(back_p.n_samples)])
+        out += [_hb(s) for s in back_r.iterator()] + [b"|"] + [_hb(s) for s in back_p.iterator()] + [b"#"]
+        # what was saved is what comes back
+        saved = [_hb(s) for s in sl.iterator()]
+        if saved != [_hb(s) for s in back_r.iterator()] or saved != [_hb(s) for s in back_p.iterator()]:
+            out.append(b"LOADED-DIFFERS-FROM-SAVED step %d" % step)
+    return {"hash": hashlib.sha256(b"\0".join(out)).hexdigest(), "n": ns,
+            "roundtrip_ok": not any(o.startswith(b"LOADED-DIFFERS") for o in out)}
+
+
+JOBS = {"kl": kl_job, "okl": okl_job, "hist": hist_job}
 
 
 def run_cfg(kind, cfg, ntask, timeout):
     c = dict(cfg)
     if c.get("outdir"):
         c["outdir"] = os.path.join(c["outdir"], "nt%d" % ntask)
+    if kind == "hist":
+        c["dir"] = os.path.join(c["dir"], "h%d_nt%d" % (c["seed"], ntask))
+        shutil.rmtree(c["dir"], ignore_errors=True)
+        os.makedirs(c["dir"])
     res = fp.run(ntask, JOBS[kind], c, timeout=timeout)
+    if kind == "hist":
+        shutil.rmtree(c["dir"], ignore_errors=True)
     return [{"status": st, "val": (v if st == "ok" else str(v)[-400:])} for st, v in res]
 
 
@@ -216,6 +255,13 @@ class C22(C.Check):
                 cfg["outdir"] = work
             nts = ([1, 2] if 0 in cfg["sched"] else [1, 3]) if quick else [1, 2, 3, 4]
             plan += [("okl", cfg, nt) for nt in nts]
+        hist_cfgs = [{"counts": [3, 1], "mirror": True, "nonlinear": False}]
+        if not quick:
+            hist_cfgs += [{"counts": [4, 2, 1], "mirror": False, "nonlinear": True}, {"counts": [2, 3, 1], "mirror": True, "nonlinear": True}]
+        for cfg in hist_cfgs:
+            cfg["seed"] = int(rng.integers(1, 10 ** 6))
+            cfg["dir"] = os.path.join(ctx.run_dir(), "hist_p%d" % os.getpid())
+            plan += [("hist", cfg, nt) for nt in ([1, 2, 3] if quick else [1, 2, 3, 4])]
         timeout = 400 if quick else 900
 
         def one(item):
@@ -227,6 +273,7 @@ class C22(C.Check):
             self.runs = list(ex.map(one, plan))
         self.t_runs = round(time.time() - t0, 1)
         shutil.rmtree(work, ignore_errors=True)
+        shutil.rmtree(os.path.join(ctx.run_dir(), "hist_p%d" % os.getpid()), ignore_errors=True)
 
     def correspondence(self, ctx, res):
         from nifty.cl.utilities import shareRange
@@ -282,6 +329,7 @@ class C22(C.Check):
                         for r in self.runs if r["kind"] == "kl" and r["ntask"] == 3][:2],
             "input_distribution": {"forked_runs": len(self.runs), "kl_runs": sum(1 for r in self.runs if r["kind"] == "kl"),
                                    "optimize_kl_runs": sum(1 for r in self.runs if r["kind"] == "okl"),
+                                   "history_runs": sum(1 for r in self.runs if r["kind"] == "hist"),
                                    "task_counts": sorted({r["ntask"] for r in self.runs})},
             "disagreements": len(bad), "exhaustive": False, "seconds_in_forked_runs": self.t_runs,
             "partial": "real MPI is not available (no libmpi): a process-based fake communicator with mpi4py semantics is used",
@@ -297,13 +345,20 @@ class C22(C.Check):
                 ref[(r["kind"], json.dumps(r["cfg"], sort_keys=True))] = r["res"][0]
         for r in runs:
             cfg = r["cfg"]
-            mode = "MAP" if (r["kind"] == "okl" and 0 in cfg["sched"]) else ("geoVI" if cfg["geo"] else "MGVI")
-            sig = {"fn": "SampledKLEnergy" if r["kind"] == "kl" else "optimize_kl", "mode": mode}
+            if r["kind"] == "hist":
+                sig = {"fn": "sample list save/overwrite/load history", "mode": "decreasing counts"}
+            else:
+                mode = "MAP" if (r["kind"] == "okl" and 0 in cfg["sched"]) else ("geoVI" if cfg["geo"] else "MGVI")
+                sig = {"fn": "SampledKLEnergy" if r["kind"] == "kl" else "optimize_kl", "mode": mode}
             inp = {"kind": r["kind"], "cfg": cfg, "ntask": r["ntask"]}
             one = ref.get((r["kind"], json.dumps(cfg, sort_keys=True)))
             bad = [x for x in r["res"] if x["status"] != "ok"]
             if bad:
                 out.append((sig, "%s with %d task(s) raised or blocked: %s" % (sig["fn"], r["ntask"], bad[0]["val"][-300:].replace("\n", " | ")), inp))
+                continue
+            if r["kind"] == "hist" and not all(x["val"]["roundtrip_ok"] for x in r["res"]):
+                out.append((sig, "history %r with %d task(s): the list loaded after a save differs from the list saved (sample counts saved/loaded residual/loaded plain per step: %r)" % (
+                    cfg["counts"], r["ntask"], r["res"][0]["val"]["n"]), inp))
                 continue
             if one is None or one["status"] != "ok":
                 continue
@@ -329,6 +384,8 @@ class C22(C.Check):
         if cfg.get("outdir"):
             cfg["outdir"] = os.path.join(ctx.run_dir(), "replay_okl_p%d" % os.getpid())
             shutil.rmtree(cfg["outdir"], ignore_errors=True)
+        if i["kind"] == "hist":
+            cfg["dir"] = os.path.join(ctx.run_dir(), "replay_hist_p%d" % os.getpid())
         runs = [{"kind": i["kind"], "cfg": cfg, "ntask": nt, "res": run_cfg(i["kind"], cfg, nt, 600)} for nt in sorted({1, i["ntask"]})]
         return bool(self._judge(runs))
 
